@@ -502,6 +502,7 @@ type Contract struct {
 	File     string
 	Line     int
 	Asserts  []Clause
+	Assumes  []Clause // stated mathematical facts, assumed when verifying the body; listed in the evidence
 	Footprint []*Node // objects whose fields (of the maps in Modifies) may change; all others keep theirs
 	Abstract []*Node // nonlinear terms replaced by fresh constants in a first proof attempt
 	NoVerify bool // contract is only used at call sites (body outside subset); listed as assumption
@@ -784,6 +785,15 @@ func (cs *ContractSet) LoadContractFile(path, pkgPath string) error {
 			}
 			cs.Funcs[c.Key] = c
 			cur = c
+		case "assume":
+			if cur == nil {
+				return fail(fmt.Errorf("assume outside func"))
+			}
+			cl, err := parseClause(rest)
+			if err != nil {
+				return fail(err)
+			}
+			cur.Assumes = append(cur.Assumes, cl)
 		case "requires", "ensures", "domain", "assert":
 			if cur == nil {
 				return fail(fmt.Errorf("%s outside func", kw))
